@@ -31,6 +31,11 @@ CLAIMED = {
   note="Trusted: TLC; positions come from Bound::get() after finalisation, values from the public reader.",
   technique="TLA+ spec (EntryOrder.tla refs machine) model-checked with TLC + replay + trace validation (EntryOrderTrace.tla)",
   design="5 C15"),
+ "C08": dict(
+  text="ClusterPipeline.tla models every step of the pipeline (main dispatch with back-pressure counter, W workers taking from the spmc channel and sending buffers with tail offsets relative to the buffer, the single writer rebasing them and filling the address table by cluster id, channel closing and thread exits). TLC explores every schedule for W in 1..3, 4 clusters (5-6 in thorough) of every raw/compressed mix, MaxQueue 1 and 2W: QueueBound, WrittenOnce, NoOverlap, AddressPointsToOwnTail, AllAddressed, NothingLost, and termination under weak fairness. The real creator runs with 1, 2 and 15 workers (1..15 in thorough; taskset), 5..80 clusters, seeded delays in every Progress callback; ClusterPipelineTrace.tla checks the pipeline invariants on what was observed (callbacks + the cluster table found in the file by the independent decoder) and ContentPackTrace.tla that every address still resolves to its own bytes, counts are exact and the pack verifies.",
+  note="Real-code schedules are sampled (seeded perturbation through the Progress callbacks), the protocol is exhaustive in the model. Callback timing (Handle after NewCluster, file order = Written order) is policy level and reported as drift only.",
+  technique="TLA+ spec (ClusterPipeline.tla, safety + liveness over all schedules) model-checked with TLC + trace validation of perturbed real runs (ClusterPipelineTrace.tla, ContentPackTrace.tla)",
+  design="5 C08"),
 }
 
 REASON_TODO = "check not built yet (work in progress; see DESIGN.md section 9 for the order of work)"
